@@ -201,7 +201,7 @@ func C06(rep *ev.Reporter, tier string) {
 	var plainChecked int64
 	judge := func(c *Case, tr *hx.Trace, w *ref.World) []Verdict {
 		vs := c06Judge(c, tr, w)
-		if c.Opts.ExtraListeners == 0 {
+		if c.Opts.ExtraListeners == 0 && hx.OrderLive() { // the differential needs both runs to take the same rule order
 			prog := hx.NewProgram(c.Rules, c.Style)
 			if b, err := hx.Build(prog); err == nil {
 				o := c.Opts
@@ -312,10 +312,13 @@ func c06Nested(rep *ev.Reporter, sets map[string]func() []*grl.Rule, maxMax uint
 						}
 					}
 				}
-				if a, b := strings.Join(otr.Events, " "), strings.Join(rotr.Events, " "); a != b {
+				if !hx.OrderLive() {
+					return "", "" // without order control two runs of one scenario may break salience ties differently
+				}
+				if a, b := hx.Evs(otr.Events), hx.Evs(rotr.Events); a != b {
 					return "C06:run-differs-when-engine-value-is-shared:outer", fmt.Sprintf("outer run with the inner run on the same engine: %s\n  with the inner run on another engine value: %s", a, b)
 				}
-				if a, b := strings.Join(itr.Events, " "), strings.Join(ritr.Events, " "); a != b {
+				if a, b := hx.Evs(itr.Events), hx.Evs(ritr.Events); a != b {
 					return "C06:run-differs-when-engine-value-is-shared:inner", fmt.Sprintf("inner run on the engine value of the outer run: %s\n  on its own engine value: %s", a, b)
 				}
 				return "", ""
